@@ -5,6 +5,7 @@ use iceoryx2_bb_container::flatmap::*;
 use iceoryx2_bb_container::slotmap::*;
 
 pub trait SmLike {
+    fn relocate_block(&mut self);
     fn insert(&mut self, t: Tr) -> Option<SlotMapKey>;
     fn insert_at(&mut self, k: SlotMapKey, t: Tr) -> bool;
     fn remove(&mut self, k: SlotMapKey) -> Option<Tr>;
@@ -14,8 +15,9 @@ pub trait SmLike {
     fn dump(&self) -> String;
 }
 macro_rules! sm_impl {
-    ($ty:ty, [$($g:tt)*], $s:ident, $acc:expr) => {
+    ($ty:ty, [$($g:tt)*], $s:ident, $acc:expr, $rel:expr) => {
         impl<$($g)*> SmLike for $ty {
+            fn relocate_block(&mut self) { let $s = self; let _ = &$s; $rel }
             fn insert(&mut self, t: Tr) -> Option<SlotMapKey> { let $s = self; #[allow(unused_unsafe)] unsafe { $acc.insert(t) } }
             fn insert_at(&mut self, k: SlotMapKey, t: Tr) -> bool { let $s = self; #[allow(unused_unsafe)] unsafe { $acc.insert_at(k, t) } }
             fn remove(&mut self, k: SlotMapKey) -> Option<Tr> { let $s = self; #[allow(unused_unsafe)] unsafe { $acc.remove(k) } }
@@ -31,9 +33,9 @@ macro_rules! sm_impl {
         }
     };
 }
-sm_impl!(SlotMap<Tr>, [], s, s);
-sm_impl!(FixedSizeSlotMap<Tr, N>, [const N: usize], s, s);
-sm_impl!(RelocBlock<RelocatableSlotMap<Tr>>, [], s, s.get());
+sm_impl!(SlotMap<Tr>, [], s, s, ());
+sm_impl!(FixedSizeSlotMap<Tr, N>, [const N: usize], s, s, ());
+sm_impl!(RelocBlock<RelocatableSlotMap<Tr>>, [], s, s.get(), s.relocate());
 
 pub struct SlotMapComp {
     m: Option<Box<dyn SmLike>>,
@@ -61,6 +63,10 @@ fn mk(fl: &str, cap: usize) -> Box<dyn SmLike> {
 }
 impl Comp for SlotMapComp {
     fn exec(&mut self, t: &[&str]) -> String {
+        if t[0] == "reloc" {
+            if let Some(m) = self.m.as_mut() { m.relocate_block(); }
+            return format!("ok {}", take_drops());
+        }
         if t[0] == "new" {
             self.m = None;
             let _ = take_drops();
@@ -144,6 +150,7 @@ pub fn generate(a: &Args) -> Vec<Vec<String>> {
 
 // ---------------------------------------------------------------------------------------------
 pub trait FmLike {
+    fn relocate_block(&mut self);
     fn insert(&mut self, k: u32, t: Tr) -> Result<(), FlatMapError>;
     fn get(&self, k: u32) -> Option<Tr>;
     fn get_ref(&self, k: u32) -> Option<String>;
@@ -152,8 +159,9 @@ pub trait FmLike {
     fn dump(&self) -> String;
 }
 macro_rules! fm_impl {
-    ($ty:ty, [$($g:tt)*], $s:ident, $acc:expr) => {
+    ($ty:ty, [$($g:tt)*], $s:ident, $acc:expr, $rel:expr) => {
         impl<$($g)*> FmLike for $ty {
+            fn relocate_block(&mut self) { let $s = self; let _ = &$s; $rel }
             fn insert(&mut self, k: u32, t: Tr) -> Result<(), FlatMapError> { let $s = self; #[allow(unused_unsafe)] unsafe { $acc.insert(k, t) } }
             fn get(&self, k: u32) -> Option<Tr> { let $s = self; #[allow(unused_unsafe)] unsafe { $acc.get(&k) } }
             fn get_ref(&self, k: u32) -> Option<String> { let $s = self; #[allow(unused_unsafe)] unsafe { $acc.get_ref(&k).map(|t| t.show()) } }
@@ -171,9 +179,9 @@ macro_rules! fm_impl {
         }
     };
 }
-fm_impl!(FlatMap<u32, Tr>, [], s, s);
-fm_impl!(FixedSizeFlatMap<u32, Tr, N>, [const N: usize], s, s);
-fm_impl!(RelocBlock<RelocatableFlatMap<u32, Tr>>, [], s, s.get());
+fm_impl!(FlatMap<u32, Tr>, [], s, s, ());
+fm_impl!(FixedSizeFlatMap<u32, Tr, N>, [const N: usize], s, s, ());
+fm_impl!(RelocBlock<RelocatableFlatMap<u32, Tr>>, [], s, s.get(), s.relocate());
 
 pub struct FlatMapComp {
     m: Option<Box<dyn FmLike>>,
@@ -198,6 +206,10 @@ fn mkf(fl: &str, cap: usize) -> Box<dyn FmLike> {
 }
 impl Comp for FlatMapComp {
     fn exec(&mut self, t: &[&str]) -> String {
+        if t[0] == "reloc" {
+            if let Some(m) = self.m.as_mut() { m.relocate_block(); }
+            return format!("ok {}", take_drops());
+        }
         if t[0] == "new" {
             self.m = None;
             let _ = take_drops();
